@@ -1282,16 +1282,67 @@ impl<'a> IntoChildOpt<'a> for NoAccess {
     }
 }
 
-/// list `extra` once more in a retrying collection through its `&mut` child accessor;
-/// false if the library gives no such access for reference members
-pub fn relist_through_child_mut(c: &mut RetryingLockCollection<CN>, extra: Node) -> bool {
+/// the method-call fallback for `iter_mut()`
+pub struct NoIter;
+pub trait IterMutFallback {
+    fn iter_mut(&mut self) -> NoIter {
+        NoIter
+    }
+}
+impl IterMutFallback for RetryingLockCollection<CN> {}
+pub trait FirstOpt<'a> {
+    /// None: no such access; Some(first element)
+    fn first_opt(self) -> Option<Option<&'a mut Node>>;
+}
+impl<'a> FirstOpt<'a> for NoIter {
+    fn first_opt(self) -> Option<Option<&'a mut Node>> {
+        None
+    }
+}
+impl<'a, I: Iterator<Item = &'a mut Node>> FirstOpt<'a> for I {
+    fn first_opt(mut self) -> Option<Option<&'a mut Node>> {
+        Some(self.next())
+    }
+}
+
+/// List `extra` once more in a retrying collection over reference members through any route
+/// that gives safe code `&mut` access to its child: `child_mut()`, `AsMut`, `iter_mut()`,
+/// `(&mut c).into_iter()`, `Extend`. Returns the route taken, None if the library offers none
+/// for such members (as it must: no safe operation may leave a collection with a repeated lock).
+pub fn relist_through_child_mut(c: &mut RetryingLockCollection<CN>, extra: Node) -> Option<&'static str> {
     #[allow(unused_imports)]
     use self::ChildMutFallback as _;
-    match c.child_mut().into_opt() {
-        Some(Cont::V(v)) => {
-            v.push(extra);
-            true
+    #[allow(unused_imports)]
+    use self::IterMutFallback as _;
+    #[allow(unused_imports)]
+    use crate::caps::BoundNo as _;
+    if let Some(Cont::V(v)) = c.child_mut().into_opt() {
+        v.push(extra);
+        return Some("child_mut");
+    }
+    let b = crate::caps::bound::<RetryingLockCollection<CN>, CN>();
+    if let Some(Cont::V(v)) = b.as_mut_of(c) {
+        v.push(extra);
+        return Some("as_mut");
+    }
+    // through an element: overwrite the last member with the extra one (the first stays listed)
+    if let Some(it) = c.iter_mut().first_opt() {
+        if let Some(first) = it {
+            *first = extra;
+            return Some("iter_mut");
         }
-        _ => false,
+        return None;
+    }
+    let bn = crate::caps::bound::<RetryingLockCollection<CN>, Node>();
+    if let Some(it) = bn.first_mut_of(c) {
+        if let Some(first) = it {
+            *first = extra;
+            return Some("into_iter_mut");
+        }
+        return None;
+    }
+    match bn.extend_with(c, extra) {
+        Ok(()) => Some("extend"),
+        Err(_) => None,
     }
 }
